@@ -2,6 +2,7 @@
 package forward
 
 import (
+	"fmt"
 	"net/http"
 	"net/http/httputil"
 	"net/textproto"
@@ -28,6 +29,14 @@ func New(passHostHeader bool) *httputil.ReverseProxy {
 			if !passHostHeader {
 				request.Host = request.URL.Host
 			}
+		},
+		// A status line with a code outside 100..999 is not a usable response: relaying it would
+		// make net/http panic in WriteHeader, so it is reported to the error handler instead.
+		ModifyResponse: func(res *http.Response) error {
+			if res.StatusCode < 100 || res.StatusCode > 999 {
+				return fmt.Errorf("backend answered with invalid status code %d", res.StatusCode)
+			}
+			return nil
 		},
 		ErrorHandler: utils.DefaultHandler.ServeHTTP,
 	}
